@@ -66,7 +66,8 @@ func (r *Report) Add(f Finding) {
 	defer r.mu.Unlock()
 	key := f.Kind + ":" + f.Class
 	r.FindingsTotal[key]++
-	if r.FindingsTotal[key] <= 5 && len(r.Findings) < 400 {
+	// known findings share a cap; a violation or disagreement is never dropped for lack of room
+	if r.FindingsTotal[key] <= 5 && (len(r.Findings) < 400 || f.Kind != "known") {
 		r.Findings = append(r.Findings, f)
 	}
 }
